@@ -729,8 +729,8 @@ class Fxp():
                     val, signed, n_word, _ = utils.str2num(val, self.signed, self.n_word, None, return_sizes=True)
                     n_frac = self.n_frac
 
-                if n_frac is not None and n_frac == 0:
-                    vdtype = int
+                if raw or (n_frac is not None and n_frac == 0):
+                    vdtype = int    # (raw values are integers whatever n_frac is)
                 else:
                     vdtype = float
 
